@@ -263,3 +263,43 @@ theorem denseResize_clean {base L h} (m cap newSize : Nat) (t : Tracks base L []
       · exact finishGrow_clean es v cap _ nd hne t1
 
 end PPLV.Alloc
+
+namespace PPLV.Alloc
+
+/-- `Dense_Row::operator=(const Sparse_Row&)` with reallocation is clean when the allocation of `init` succeeds. -/
+theorem denseAssignSparse_clean_of_alloc {base L h} (m0 cap m : Nat) (t : Tracks base L [] h) (hc : cap ≠ 0)
+    (hal : ∀ h1 : Heap, h1.cd = h.cd → h1.armed = h.armed → (h1.alloc).1 ≠ none) :
+    Clean L (denseAssignSparse (buildRow m0 cap h).1 m (buildRow m0 cap h).2) := by
+  obtain ⟨v, es, ev, ees, t1, nd, hne, _⟩ := buildParts_spec m0 cap t hc
+  have e : buildRow m0 cap h = ({ vec := some v, cap := cap, elems := es }, (takeN (min m0 cap) [] h.take.2).2) := by
+    simp [buildRow, hc, ev, ees]
+  rw [e]
+  have hcd : ∀ n acc (g : Heap), (takeN n acc g).2.cd = g.cd ∧ (takeN n acc g).2.armed = g.armed := by
+    intro n; induction n with
+    | zero => intro acc g; simp [takeN]
+    | succ n ih => intro acc g; simp only [takeN]; have := ih (acc ++ [g.take.1]) g.take.2; simpa [Heap.take] using this
+  have hfa : ∀ (fs : List Nat) (g : Heap), (g.freeAll fs).cd = g.cd ∧ (g.freeAll fs).armed = g.armed := by
+    intro fs; induction fs with
+    | nil => intro g; simp [Heap.freeAll]
+    | cons f fs ih => intro g; have := ih (g.free f); simpa [Heap.freeAll, Heap.free] using this
+  generalize hh0 : (takeN (min m0 cap) [] h.take.2).2 = h0 at t1
+  have h0cd : h0.cd = h.cd ∧ h0.armed = h.armed := by
+    rw [← hh0]; have := hcd (min m0 cap) [] h.take.2; simpa [Heap.take] using this
+  unfold denseAssignSparse
+  simp only
+  -- after destroy() nothing is owned
+  have t2 : Tracks base L [] ((h0.freeAll es.reverse).freeOpt (some v)) := by
+    have := drowDestroy_some (cap := cap) t1 nd (fun b hb => ⟨hne b hb, by simp⟩) (by simp)
+    simpa [drowDestroy] using this
+  have hcd2 : ((h0.freeAll es.reverse).freeOpt (some v)).cd = h.cd ∧ ((h0.freeAll es.reverse).freeOpt (some v)).armed = h.armed := by
+    have := hfa es.reverse h0
+    simp only [Heap.freeOpt, Heap.free]
+    exact ⟨this.1.trans h0cd.1, this.2.trans h0cd.2⟩
+  split
+  · rename_i h2 ha
+    exact absurd (by rw [ha]) (hal _ hcd2.1 hcd2.2)
+  · rename_i nv h2 ha
+    obtain ⟨t3, _, _⟩ := t2.alloc_some ha
+    exact finishGrow_clean [] nv m _ List.nodup_nil (by simp) (by simpa using t3)
+
+end PPLV.Alloc
